@@ -5,6 +5,9 @@ import (
 	"go/ast"
 	"go/token"
 	"go/types"
+	"strings"
+
+	"golang.org/x/tools/go/packages"
 )
 
 // ---------------------------------------------------------------------------------------------
@@ -540,4 +543,255 @@ func rootedInCopy(info *types.Info, l ast.Expr, v types.Object) bool {
 			return false
 		}
 	}
+}
+
+// ---------------------------------------------------------------------------------------------
+// nilFlow: forward must-analysis "o is known non-nil here" over the go/cfg graph of one function
+// body (closures excluded). Facts: after `o = e` with e anything but nil / a multi-valued call whose
+// error is discarded: non-nil (optimistic: single results are trusted); after the true edge of
+// `o != nil` or the false edge of `o == nil`: non-nil; after `var o *T`, `o = nil`, `o, _ = f()`
+// and on the nil edge of a test: not known. Returns, for a position inside the body, whether o is
+// known non-nil when the node at that position is evaluated (ok=false: position not located).
+type nilFlowResult struct {
+	fg  *fcfg
+	in  map[int32]bool // block index -> non-nil at entry
+	o   types.Object
+	c   *Ctx
+	inf *types.Info
+}
+
+func (c *Ctx) nilFlow(info *types.Info, body *ast.BlockStmt, o types.Object, nonNilAtEntry bool) *nilFlowResult {
+	fg := c.cfgOf(info, body)
+	r := &nilFlowResult{fg: fg, in: map[int32]bool{}, o: o, c: c, inf: info}
+	blocks := fg.g.Blocks
+	if len(blocks) == 0 {
+		return r
+	}
+	reach := map[int32]bool{}
+	for _, b := range blocks {
+		r.in[b.Index] = true // optimistic start
+	}
+	r.in[blocks[0].Index] = nonNilAtEntry
+	reach[blocks[0].Index] = true
+	changed := true
+	for iter := 0; changed && iter < 200; iter++ {
+		changed = false
+		for _, b := range blocks {
+			if !reach[b.Index] {
+				continue
+			}
+			out := r.in[b.Index]
+			for _, n := range b.Nodes {
+				out = r.transfer(n, out)
+			}
+			for si, s := range b.Succs {
+				v := out
+				if len(b.Succs) == 2 && len(b.Nodes) > 0 {
+					if e, ok := b.Nodes[len(b.Nodes)-1].(ast.Expr); ok {
+						if to, trueIsNonNil, ok := nilTest(info, e); ok && to == o {
+							if si == 0 {
+								v = trueIsNonNil
+							} else {
+								v = !trueIsNonNil
+							}
+						}
+					}
+				}
+				if !reach[s.Index] {
+					reach[s.Index] = true
+					changed = true
+				}
+				if r.in[s.Index] && !v {
+					r.in[s.Index] = false
+					changed = true
+				}
+			}
+		}
+	}
+	return r
+}
+
+func (r *nilFlowResult) transfer(n ast.Node, cur bool) bool {
+	info := r.inf
+	switch s := n.(type) {
+	case *ast.AssignStmt:
+		for i, l := range s.Lhs {
+			if identObj(info, l) != r.o {
+				continue
+			}
+			if len(s.Lhs) != len(s.Rhs) {
+				// multi-valued call: trusted unless a result of the same call is discarded
+				discarded := false
+				for _, l2 := range s.Lhs {
+					if id, ok := unparen(l2).(*ast.Ident); ok && id.Name == "_" {
+						discarded = true
+					}
+				}
+				cur = !discarded
+				continue
+			}
+			rhs := unparen(s.Rhs[i])
+			if isNilIdent(info, rhs) {
+				cur = false
+			} else if id, ok := rhs.(*ast.Ident); ok && identObj(info, id) != nil {
+				// copy of another variable: trusted only if that variable is never compared with nil here
+				cur = true
+			} else {
+				cur = true
+			}
+		}
+	case *ast.DeclStmt:
+		if gd, ok := s.Decl.(*ast.GenDecl); ok {
+			for _, sp := range gd.Specs {
+				if vs, ok := sp.(*ast.ValueSpec); ok {
+					for i, nm := range vs.Names {
+						if info.Defs[nm] == r.o {
+							if i < len(vs.Values) && !isNilIdent(info, vs.Values[i]) {
+								cur = true
+							} else {
+								cur = false
+							}
+						}
+					}
+				}
+			}
+		}
+	case *ast.ValueSpec:
+		for i, nm := range s.Names {
+			if info.Defs[nm] == r.o {
+				if i < len(s.Values) && !isNilIdent(info, s.Values[i]) {
+					cur = true
+				} else {
+					cur = false
+				}
+			}
+		}
+	case *ast.RangeStmt:
+		for _, l := range []ast.Expr{s.Key, s.Value} {
+			if l != nil && identObj(info, l) == r.o {
+				cur = true
+			}
+		}
+	case *ast.Ident:
+		// go/cfg lists the key and value of a range statement as bare identifiers
+		if identObj(info, s) == r.o {
+			cur = true
+		}
+	}
+	return cur
+}
+
+// at: is o known non-nil when the expression at pos is evaluated?
+func (r *nilFlowResult) at(pos token.Pos) (nonNil, ok bool) {
+	b, idx := locate(r.fg.g, pos)
+	if b == nil {
+		return false, false
+	}
+	cur := r.in[b.Index]
+	for i := 0; i < idx && i < len(b.Nodes); i++ {
+		cur = r.transfer(b.Nodes[i], cur)
+	}
+	return cur, true
+}
+
+// ---------------------------------------------------------------------------------------------
+// FMT-CONST: a text taken from a tree (names, comments, Newick) must never be used AS a format
+// string: fmt.Fprintf(f, t.Newick()+"\n") rewrites every '%' of a label ("100%", "Homo%20sapiens")
+// into %!x(MISSING) noise. Every call of a printf-like function whose format argument is not a
+// constant and that passes no further argument is reported.
+func (c *Ctx) fmtConst(rule string, pkgs []*packages.Package, clause string, isSource func(*types.Func) bool) (n, nviol int) {
+	if isSource == nil {
+		isSource = func(g *types.Func) bool {
+			pp := g.Pkg().Path()
+			return pp == modPath+"/tree" || strings.HasPrefix(pp, modPath+"/io/")
+		}
+	}
+	fmtIdx := map[string]int{"fmt.Printf": 0, "fmt.Sprintf": 0, "fmt.Errorf": 0, "fmt.Fprintf": 1, "log.Printf": 0, "log.Fatalf": 0, "log.Panicf": 0}
+	for _, p := range pkgs {
+		info := p.TypesInfo
+		for _, f := range p.Syntax {
+			walkStack(f, func(m ast.Node, stack []ast.Node) bool {
+				call, ok := m.(*ast.CallExpr)
+				if !ok {
+					return true
+				}
+				fn := calleeOf(info, call)
+				if fn == nil || fn.Pkg() == nil {
+					return true
+				}
+				name := fn.Pkg().Path() + "." + fn.Name()
+				if sig := fn.Type().(*types.Signature); sig.Recv() != nil {
+					// (*log.Logger).Printf and friends
+					if fn.Pkg().Path() == "log" && strings.HasSuffix(fn.Name(), "f") {
+						name = "log.Printf"
+					} else {
+						return true
+					}
+				}
+				idx, isFmt := fmtIdx[name]
+				if !isFmt || len(call.Args) <= idx {
+					return true
+				}
+				n++
+				if tv, ok := info.Types[call.Args[idx]]; ok && tv.Value != nil {
+					return true // constant format
+				}
+				if len(call.Args) > idx+1 || call.Ellipsis.IsValid() {
+					return true // a computed format with arguments: somebody built a format on purpose
+				}
+				if !c.derivedFromTree(info, stack, call.Args[idx], 3, isSource) {
+					return true // not a text of a tree (e.g. a server response): outside the property
+				}
+				nviol++
+				c.Violation(rule, c.enclosingFuncName(info, stack)+"/"+fn.Name()+"("+c.canon(info, call.Args[idx], nil)+")", call.Pos(), "a computed text is used as the format string of "+fn.Name()+" with no arguments: every '%' it contains (tip names such as 100%, Homo%20sapiens, comments) is rewritten into %!x(MISSING) noise; write the text itself (WriteString / Fprint / \"%s\")").Clause = clause
+				return true
+			})
+		}
+	}
+	c.Trivial(rule, "scan", token.NoPos, fmt.Sprintf("%d printf-like calls examined", n))
+	return
+}
+
+// derivedFromTree: the expression contains a call of a method of tree.Tree / Node / Edge or of a
+// writer of the io packages, directly or through locals of the enclosing function.
+func (c *Ctx) derivedFromTree(info *types.Info, stack []ast.Node, e ast.Expr, depth int, isSource func(*types.Func) bool) bool {
+	found := false
+	ast.Inspect(e, func(m ast.Node) bool {
+		switch x := m.(type) {
+		case *ast.CallExpr:
+			if g := calleeOf(info, x); g != nil && g.Pkg() != nil {
+				if isSource(g) {
+					found = true
+				}
+			}
+		case *ast.Ident:
+			if depth == 0 {
+				return true
+			}
+			v, ok := identObj(info, x).(*types.Var)
+			if !ok || v.IsField() {
+				return true
+			}
+			// definitions of the local in the enclosing function
+			for i := len(stack) - 1; i >= 0; i-- {
+				var body *ast.BlockStmt
+				switch f := stack[i].(type) {
+				case *ast.FuncDecl:
+					body = f.Body
+				case *ast.FuncLit:
+					body = f.Body
+				}
+				if body == nil {
+					continue
+				}
+				forAssignsTo(info, body, v, func(rhs ast.Expr, multi, incdec bool) {
+					if rhs != nil && rhs != e && c.derivedFromTree(info, stack, rhs, depth-1, isSource) {
+						found = true
+					}
+				})
+			}
+		}
+		return !found
+	})
+	return found
 }
